@@ -15,7 +15,7 @@ open Ctrmml Ctrmml.Player Ctrmml.Mds Ctrmml.WTrace Ctrmml.WFold Ctrmml.Refine Ct
 def WFTrack (song : Song) (tevs : List Event) : Prop :=
   NoEnd tevs ∧ BracketsTimeless tevs ∧ (∀ e ∈ tevs, SimpleEv e) ∧ ∃ items, perf song tevs = .ok items
 
-theorem emits_noseg {m : List (Int × Nat)} {d : Bool} {r r' : Nat} {g g' : Bool} {its : List TraceItem} {ms : List MEv}
+theorem emits_noseg {m : WCtx} {d : Bool} {r r' : Nat} {g g' : Bool} {its : List TraceItem} {ms : List MEv}
     (h : Emits m d r g its ms r' g') (hn : ∀ it ∈ its, it.ev.type ≠ ev_SEGNO) : g' = g := by
   induction h with
   | nil => rfl
@@ -38,7 +38,7 @@ def RoutineOK (song : Song) (tevs : List Event) (fpre : List Tree.Node) (note : 
 of a call made in drum-mode state `b`, whose track is well-formed and has no loop point, `Emits` of
 the track in state `b`, the pending rest, `FINISH`; for the key of a drum routine, `Emits` of the
 events before its note, what is flushed in front of the note, and `DMFINISH` with the note number -/
-def FlatSub (song : Song) (m : List (Int × Nat)) (key : Int) (evs : List MEv) : Prop :=
+def FlatSub (song : Song) (m : WCtx) (key : Int) (evs : List MEv) : Prop :=
   (∀ (t : Int) (b : Bool) (tevs : List Event), key = subKey t false b → song.track? (trackIdOfParam t) = some tevs →
     WFTrack song tevs → (∀ e ∈ tevs, e.kind ≠ .segno) →
     ∃ ms r, Emits m b 0 false (tevs.map fun e => tItem e e) ms r false ∧ r < 65536 ∧
@@ -48,7 +48,7 @@ def FlatSub (song : Song) (m : List (Int × Nat)) (key : Int) (evs : List MEv) :
     ∃ ms r g, Emits m false 0 false ((flattenL fpre).map fun e => tItem e e) ms r g ∧ r < 65536 ∧
       evs = ms ++ (prepR r (tItem note note)).1 ++ [⟨mds_DMFINISH, u16 note.param⟩])
 
-theorem FlatSub.mono {song : Song} {m m' : List (Int × Nat)} (hm : ∀ p ∈ m, p ∈ m') {key : Int} {evs : List MEv}
+theorem FlatSub.mono {song : Song} {m m' : WCtx} (hm : m.le m') {key : Int} {evs : List MEv}
     (h : FlatSub song m key evs) : FlatSub song m' key evs := by
   refine ⟨?_, ?_⟩
   · intro t b tevs hk htr hwf hns
@@ -59,36 +59,41 @@ theorem FlatSub.mono {song : Song} {m m' : List (Int × Nat)} (hm : ∀ p ∈ m,
     exact ⟨ms, r, g, he.mono hm, hr, ho⟩
 
 /-- every finished subroutine (not in `hs`: still being converted) is flat -/
-def Flat (song : Song) (c : Conv) (hs : List Nat) : Prop :=
-  ∀ p ∈ c.subMap, p.2 ∉ hs → ∃ evs, c.subList[p.2]? = some evs ∧ FlatSub song c.subMap p.1 evs
+def Flat (song : Song) (d : DataInfo) (c : Conv) (hs : List Nat) : Prop :=
+  ∀ p ∈ c.subMap, p.2 ∉ hs → ∃ evs, c.subList[p.2]? = some evs ∧ FlatSub song (ctxOf d c) p.1 evs
 
-theorem flat_empty (song : Song) : Flat song {} [] := by intro p hp; simp at hp
+theorem flat_empty (song : Song) (d : DataInfo) : Flat song d {} [] := by intro p hp; simp at hp
 
 /-- same subroutine map and lists: same invariant -/
-theorem Flat.congr {song : Song} {c c' : Conv} {hs : List Nat} (h : Flat song c hs) (h1 : c'.subMap = c.subMap)
-    (h2 : c'.subList = c.subList) : Flat song c' hs := by
+theorem Flat.congr {song : Song} {d : DataInfo} {c c' : Conv} {hs : List Nat} (h : Flat song d c hs) (h1 : c'.subMap = c.subMap)
+    (h2 : c'.subList = c.subList) (h3 : ∀ p ∈ c.macroMap, p ∈ c'.macroMap) : Flat song d c' hs := by
   intro p hp hn
   rw [h1] at hp
   obtain ⟨evs, he, hf⟩ := h p hp hn
-  exact ⟨evs, by rw [h2]; exact he, by rw [h1]; exact hf⟩
+  refine ⟨evs, by rw [h2]; exact he, ?_⟩
+  have hle : (ctxOf d c).le (ctxOf d c') := ⟨fun q hq => by
+    have hq' : q ∈ c.subMap := hq
+    show q ∈ c'.subMap
+    rw [h1]; exact hq', h3, rfl⟩
+  exact FlatSub.mono hle hf
 
 theorem subKey_inj {t t' : Int} {a b a' b' : Bool} (h : subKey t a b = subKey t' a' b') : t = t' ∧ a = a' ∧ b = b' := by
   unfold subKey at h
   cases a <;> cases b <;> cases a' <;> cases b' <;> simp at h <;> first | exact ⟨by omega, rfl, rfl⟩ | omega
 
 structure WInv2 (song : Song) (d : DataInfo) (n : Nat) : Prop where
-  hook : ∀ c w it c' w' L P, Inv song d c (w.out :: L) P → Flat song c P.hs → Mds.hook song d n c w it = .ok (c', w') →
-    Flat song c' P.hs
-  run : ∀ steps root c w st c' w' L P, Inv song d c (w.out :: L) P → Flat song c P.hs →
-    runWriter song d root n steps c w st = .ok (c', w') → Flat song c' P.hs
-  sub : ∀ c t a b c' id L P, Inv song d c L P → Flat song c P.hs → getSubroutine song d n c t a b = .ok (c', id) →
-    Flat song c' P.hs
-  mac : ∀ c t c' id L P, Inv song d c L P → Flat song c P.hs → getMacroTrack song d n c t = .ok (c', id) →
-    Flat song c' P.hs
+  hook : ∀ c w it c' w' L P, Inv song d c (w.out :: L) P → Flat song d c P.hs → Mds.hook song d n c w it = .ok (c', w') →
+    Flat song d c' P.hs
+  run : ∀ steps root c w st c' w' L P, Inv song d c (w.out :: L) P → Flat song d c P.hs →
+    runWriter song d root n steps c w st = .ok (c', w') → Flat song d c' P.hs
+  sub : ∀ c t a b c' id L P, Inv song d c L P → Flat song d c P.hs → getSubroutine song d n c t a b = .ok (c', id) →
+    Flat song d c' P.hs
+  mac : ∀ c t c' id L P, Inv song d c L P → Flat song d c P.hs → getMacroTrack song d n c t = .ok (c', id) →
+    Flat song d c' P.hs
 
 theorem hook_succ_flat {song : Song} {d : DataInfo} (hpc : PlatformClean d) (n : Nat) (ih : WInv2 song d n) :
-    ∀ c w it c' w' L P, Inv song d c (w.out :: L) P → Flat song c P.hs → Mds.hook song d (n + 1) c w it = .ok (c', w') →
-      Flat song c' P.hs := by
+    ∀ c w it c' w' L P, Inv song d c (w.out :: L) P → Flat song d c P.hs → Mds.hook song d (n + 1) c w it = .ok (c', w') →
+      Flat song d c' P.hs := by
   intro c w it c' w' L P hinv hf h
   cases hook_step hpc h with
   | plain w' evs _ _ => exact hf
@@ -96,12 +101,14 @@ theorem hook_succ_flat {song : Song} {d : DataInfo} (hpc : PlatformClean d) (n :
   | jump c' id w' pre _ hg _ _ => exact ih.sub c _ _ _ c' id (w.out :: L) P hinv hf hg
   | data key ty arg w' pre _ _ _ _ =>
     obtain ⟨h1, _, h3, _⟩ := getEnvelope_spec c key hinv.maps
-    exact hf.congr h3 h1
+    exact hf.congr h3 h1 (fun p hp => by
+      have : (getEnvelope c key).1.macroMap = c.macroMap := by unfold getEnvelope; split <;> rfl
+      rw [this]; exact hp)
   | mtab c' id w' pre _ _ hg _ _ => exact ih.mac c _ c' id (w.out :: L) P hinv hf hg
 
 theorem run_succ_flat {song : Song} {d : DataInfo} (hpc : PlatformClean d) (n : Nat) (ih : WInv2 song d n) :
-    ∀ steps root c w st c' w' L P, Inv song d c (w.out :: L) P → Flat song c P.hs →
-      runWriter song d root (n + 1) steps c w st = .ok (c', w') → Flat song c' P.hs := by
+    ∀ steps root c w st c' w' L P, Inv song d c (w.out :: L) P → Flat song d c P.hs →
+      runWriter song d root (n + 1) steps c w st = .ok (c', w') → Flat song d c' P.hs := by
   intro steps
   induction steps with
   | zero => intro root c w st c' w' L P _ _ h; simp only [runWriter] at h; cases h
@@ -150,8 +157,8 @@ theorem getElem?_append_some' {α} {l m : List α} {k : Nat} {x : α} (h : l[k]?
 
 theorem sub_succ_flat {song : Song} {d : DataInfo} (hpc : PlatformClean d) (hne : SongNoEnd song) (n : Nat)
     (ih : WInv2 song d n) :
-    ∀ c t a b c' id L P, Inv song d c L P → Flat song c P.hs → getSubroutine song d (n + 1) c t a b = .ok (c', id) →
-      Flat song c' P.hs := by
+    ∀ c t a b c' id L P, Inv song d c L P → Flat song d c P.hs → getSubroutine song d (n + 1) c t a b = .ok (c', id) →
+      Flat song d c' P.hs := by
   intro c t a b c' id L P hinv hf h
   simp only [getSubroutine] at h
   change (match c.subMap.lookup (subKey t a b) with | some id => _ | none => _) = _ at h
@@ -182,7 +189,7 @@ theorem sub_succ_flat {song : Song} {d : DataInfo} (hpc : PlatformClean d) (hne 
         simp only [Except.ok.injEq, Prod.mk.injEq] at h
         obtain ⟨rfl, rfl⟩ := h
         -- the invariant with the new entry pending
-        have hf1 : Flat song c1 (c.subList.length :: P.hs) := by
+        have hf1 : Flat song d c1 (c.subList.length :: P.hs) := by
           intro p hp hnot
           simp only [List.mem_cons, not_or] at hnot
           have hp' : p ∈ c.subMap := by
@@ -192,7 +199,13 @@ theorem sub_succ_flat {song : Song} {d : DataInfo} (hpc : PlatformClean d) (hne 
             · rw [List.mem_singleton] at hp'; subst hp'; exact absurd rfl hnot.1
           obtain ⟨evs', he, hfl⟩ := hf p hp' hnot.2
           refine ⟨evs', by rw [hc1]; exact getElem?_append_some he, ?_⟩
-          rw [hc1]; exact hfl.mono (fun q hq => by simp [hq])
+          rw [hc1]
+          have hle : (ctxOf d c).le (ctxOf d { c with subMap := c.subMap ++ [(subKey t a b, c.subList.length)], subList := c.subList ++ [[]] }) :=
+            ⟨fun q hq => by
+              have hq' : q ∈ c.subMap := hq
+              show q ∈ c.subMap ++ [(subKey t a b, c.subList.length)]
+              exact List.mem_append_left _ hq', fun q hq => hq, rfl⟩
+          exact FlatSub.mono hle hfl
         have hf2 := ih.run 20000000 evs c1 _ initState c2 w L _ h1 hf1 hr
         obtain ⟨hi2, hm2⟩ := (writerInv hpc n).run 20000000 evs c1 _ initState c2 w L _ h1 hr
         have hmem1 : (subKey t a b, c.subList.length) ∈ c1.subMap := by rw [hc1]; simp
@@ -249,8 +262,8 @@ theorem sub_succ_flat {song : Song} {d : DataInfo} (hpc : PlatformClean d) (hne 
           rw [List.getElem?_set_ne (Ne.symm hpk)]; exact he
 
 theorem mac_succ_flat {song : Song} {d : DataInfo} (hpc : PlatformClean d) (n : Nat) (ih : WInv2 song d n) :
-    ∀ c t c' id L P, Inv song d c L P → Flat song c P.hs → getMacroTrack song d (n + 1) c t = .ok (c', id) →
-      Flat song c' P.hs := by
+    ∀ c t c' id L P, Inv song d c L P → Flat song d c P.hs → getMacroTrack song d (n + 1) c t = .ok (c', id) →
+      Flat song d c' P.hs := by
   intro c t c' id L P hinv hf h
   simp only [getMacroTrack] at h
   cases hl : c.macroMap.lookup t with
@@ -277,10 +290,10 @@ theorem mac_succ_flat {song : Song} {d : DataInfo} (hpc : PlatformClean d) (n : 
         obtain ⟨c2, w⟩ := r
         simp only [Except.ok.injEq, Prod.mk.injEq] at h
         obtain ⟨rfl, rfl⟩ := h
-        have hf1 : Flat song c1 P.hs := hf.congr (by rw [hc1]) (by rw [hc1])
+        have hf1 : Flat song d c1 P.hs := hf.congr (by rw [hc1]) (by rw [hc1]) (fun p hp => by rw [hc1]; simp [hp])
         have hf2 := ih.run 20000000 evs c1 _ initState c2 w L { P with xm := c.macroList.length :: P.xm, hm := c.macroList.length :: P.hm }
           h1 hf1 hr
-        exact hf2.congr rfl rfl
+        exact hf2.congr rfl rfl (fun p hp => hp)
 
 /-- the flat invariant is carried by all four functions, for every fuel -/
 theorem writerInv2 {song : Song} {d : DataInfo} (hpc : PlatformClean d) (hne : SongNoEnd song) : ∀ n, WInv2 song d n := by
@@ -298,13 +311,13 @@ theorem writerInv2 {song : Song} {d : DataInfo} (hpc : PlatformClean d) (hne : S
 /-! ### the constructor -/
 
 /-- what the writer made of a channel track -/
-def ChanFlat (song : Song) (m : List (Int × Nat)) (id : Nat) (evs : List MEv) : Prop :=
+def ChanFlat (song : Song) (m : WCtx) (id : Nat) (evs : List MEv) : Prop :=
   ∀ tevs, song.track? id = some tevs → WFTrack song tevs →
     ∃ items ms r g, perf song tevs = .ok items ∧ Emits m false 0 false (tevs.map fun e => tItem e e) ms r g ∧ r < 65536 ∧
       evs = ms ++ flushL r ++
         [⟨if g = true ∧ (totalDur items : Int) ≠ toInt (loopTime items) then mds_JUMP else mds_FINISH, 0⟩]
 
-theorem ChanFlat.mono {song : Song} {m m' : List (Int × Nat)} (hm : ∀ p ∈ m, p ∈ m') {id : Nat} {evs : List MEv}
+theorem ChanFlat.mono {song : Song} {m m' : WCtx} (hm : m.le m') {id : Nat} {evs : List MEv}
     (h : ChanFlat song m id evs) : ChanFlat song m' id evs := by
   intro tevs htr hwf
   obtain ⟨items, ms, r, g, h1, h2, h3, h4⟩ := h tevs htr hwf
@@ -312,9 +325,9 @@ theorem ChanFlat.mono {song : Song} {m m' : List (Int × Nat)} (hm : ∀ p ∈ m
 
 theorem parseTracks_flat {song : Song} {d : DataInfo} (hpc : PlatformClean d) (hne : SongNoEnd song) :
     ∀ (ids : List Nat) (c : Conv) (tl : List (Nat × List MEv)) (c' : Conv) (tl' : List (Nat × List MEv)),
-      Inv song d c (tl.map (·.2)) {} → Flat song c [] → (∀ p ∈ tl, ChanFlat song c.subMap p.1 p.2) →
+      Inv song d c (tl.map (·.2)) {} → Flat song d c [] → (∀ p ∈ tl, ChanFlat song (ctxOf d c) p.1 p.2) →
       parseTracks song d ids c tl = .ok (c', tl') →
-      Flat song c' [] ∧ (∀ p ∈ tl', ChanFlat song c'.subMap p.1 p.2)
+      Flat song d c' [] ∧ (∀ p ∈ tl', ChanFlat song (ctxOf d c') p.1 p.2)
   | [], c, tl, c', tl', _, hf, hch, h => by
     simp only [parseTracks, Except.ok.injEq, Prod.mk.injEq] at h
     obtain ⟨rfl, rfl⟩ := h
@@ -338,7 +351,7 @@ theorem parseTracks_flat {song : Song} {d : DataInfo} (hpc : PlatformClean d) (h
           inv_lists_congr (fun l hl => Or.inl (List.mem_cons_of_mem _ hl))
             (fun l hl => by rcases List.mem_cons.mp hl with h' | h'; exact Or.inr h'; exact Or.inl h') hinv
         obtain ⟨hi1, hm1⟩ := (writerInv hpc 64).run 20000000 evs c _ initState c1 w (tl.map (·.2)) {} h0 hr
-        have hf1 : Flat song c1 [] := (writerInv2 hpc hne 64).run 20000000 evs c _ initState c1 w (tl.map (·.2)) {} h0 hf hr
+        have hf1 : Flat song d c1 [] := (writerInv2 hpc hne 64).run 20000000 evs c _ initState c1 w (tl.map (·.2)) {} h0 hf hr
         have hi2 : Inv song d c1 ((tl ++ [((id : Nat), w.out)]).map (·.2)) {} :=
           inv_lists_congr (fun l hl => Or.inl (by
               rcases List.mem_cons.mp hl with h' | h'
@@ -349,10 +362,10 @@ theorem parseTracks_flat {song : Song} {d : DataInfo} (hpc : PlatformClean d) (h
               rcases hl with h' | h'
               · exact List.mem_cons_of_mem _ h'
               · subst h'; exact List.mem_cons_self)) hi1
-        have hch1 : ∀ p ∈ tl ++ [((id : Nat), w.out)], ChanFlat song c1.subMap p.1 p.2 := by
+        have hch1 : ∀ p ∈ tl ++ [((id : Nat), w.out)], ChanFlat song (ctxOf d c1) p.1 p.2 := by
           intro p hp
           rcases List.mem_append.mp hp with hp' | hp'
-          · exact (hch p hp').mono hm1.1
+          · exact (hch p hp').mono (ctxOf_le d hm1)
           · rw [List.mem_singleton] at hp'; subst hp'
             intro tevs htr' hwf
             rw [htr] at htr'
@@ -367,7 +380,7 @@ theorem parseTracks_flat {song : Song} {d : DataInfo} (hpc : PlatformClean d) (h
 /-- **the flat form of everything the constructor converts** -/
 theorem construct_flat {song : Song} {d : DataInfo} (hpc : PlatformClean d) (hne : SongNoEnd song) {vol : Option String}
     {b : Built} (h : construct song d vol = .ok b) :
-    Flat song b.conv [] ∧ ∀ p ∈ b.trackList, ChanFlat song b.conv.subMap p.1 p.2 := by
+    Flat song d b.conv [] ∧ ∀ p ∈ b.trackList, ChanFlat song (ctxOf d b.conv) p.1 p.2 := by
   unfold construct at h
   cases hp : parseTracks song d (channelIds song) {} [] with
   | error x => rw [hp] at h; cases h
@@ -377,6 +390,6 @@ theorem construct_flat {song : Song} {d : DataInfo} (hpc : PlatformClean d) (hne
     simp only at h
     obtain ⟨_, _, _, _, _, _, _, hc, ht, _⟩ := assemble_ok h
     rw [hc, ht]
-    exact parseTracks_flat hpc hne _ _ _ _ _ (inv_empty song d) (flat_empty song) (by intro p hp; simp at hp) hp
+    exact parseTracks_flat hpc hne _ _ _ _ _ (inv_empty song d) (flat_empty song d) (by intro p hp; simp at hp) hp
 
 end Ctrmml.SongInv
